@@ -65,6 +65,10 @@ CHECKS = {
    text="SendPath.tla with fault actions (unencodable value at the coder, session not ready and oversized frame at the noise/segments layers, a raising layer above the coder, a raising application callback and an undecodable frame on the way up) and the switches ReleaseOnException / SizeCheckedFirst; TLC checks Reported, NoLockLeak, NotStuck, AllReceived, CounterOrder and termination under fairness for every failure site followed by same-thread and other-thread sends and receives; the as-read switch settings must violate NoLockLeak / CounterOrder (self-test). Schedules are replayed on the real stack under the deterministic scheduler with the concrete faults; a follow-up that cannot proceed is a detected deadlock.",
    note="Failure sites inside the protocol / encryption layers of the full default stack and reconnects are exercised by C16 / C06's rigs, not here. Oversized-frame cases are replayed on few schedules (each needs a 16 MiB stanza).",
    technique="TLA+ spec with fault actions + TLC (safety + liveness); schedule replay with fault injection under a deterministic thread scheduler"),
+ "C04": dict(level="model_checking", design="4/C04",
+   text="NoiseLayer.tla models the protocol state machine, the shared incoming-segments queue, the flush lock, one handshake worker per login attempt, the network thread, a server for the variants XX / IK / IK-with-new-key / failing authentication, disconnects and reconnects, one action per shared-state operation; TLC exhaustively checks in-order exactly-once delivery, key persistence, failure reporting and - under weak fairness - that every attempt that is not cut off establishes the session or reports failure, for 1 attempt x 2 frames and 2 attempts x 1 frame; the as-read switch (transport state shared across attempts) must violate it. The real network|segments|noise|coder stack is then run against a dissononce-based Noise server double under the deterministic scheduler: all variants x chunkings (whole / byte-wise / random) x edge-routing on/off x fair, PCT-random and all one-preemption schedules, and reconnect scripts with the first attempt cut before, during or after the server's reply; each execution is judged on observables (stanzas at the top, frames decrypted by the strict peer, decoded login payload, key in the profile and on disk, failure stanza/event, no blocked thread) and its event trace is validated by TLC against NoiseLayer_Trace.tla.",
+   note="Noise is symbolic in the model and real (consonance/dissononce) in the executions. Preemption at queue / lock operations and at instrumented protocol-state reads/writes; a disconnect racing with a receive() in progress is not explored. Reconnect scripts are sampled in the quick tier.",
+   technique="TLA+ spec + TLC (safety and liveness); deterministic-scheduler exploration of the real stack with TLC trace validation of every execution"),
 }
 NA_REASON = "check not built yet in this session (planned: see DESIGN.md section 4)"
 
